@@ -354,7 +354,7 @@ Definition head_rel (e e2 : expr) : Prop :=
   | ECall p n _ => exists a, e2 = ECall p n a
   | EName p s => e2 = EName p s \/ exists d, e2 = ERef p s d
   | EList p _ => exists l, e2 = EList p l
-  | EAccess p _ f => exists l, e2 = EAccess p l f
+  | EAccess p _ _ => exists l f2, e2 = EAccess p l f2
   | _ => e2 = e
   end.
 
@@ -375,7 +375,27 @@ Proof.
   - inversion H; subst; reflexivity.
   - destruct l; try discriminate H. inv_bind H as i2 Hi2 H. destruct i2; try discriminate H.
     destruct (first_mistyped (rtype e0) i2); inversion H; subst. cbn. eauto.
-  - inv_bind H as l2 Hl2 H. inv_bind H as u Hu H. inversion H; subst. cbn. eauto.
+  - inv_bind H as l2 Hl2 H. inv_bind H as f2 Hf2 H. inv_bind H as u Hu H. inversion H; subst. cbn. eauto.
+Qed.
+
+(* Check keeps a literal a literal, and only a literal becomes one *)
+Lemma check_literal_back : forall f f2, check ctx f = Ok f2 ->
+  match f2 with EStr _ _ | ENum _ _ => f = f2 | _ => True end.
+Proof.
+  intros f f2 H. pose proof (check_head _ _ H) as Hh.
+  destruct f2; try exact I; cbn [rewrite_name] in Hh;
+    (destruct f; cbn in Hh;
+     try (destruct Hh as [x [y Hh]]; discriminate Hh);
+     try (destruct Hh as [x Hh]; discriminate Hh);
+     try (destruct Hh as [Hh|[d Hh]]; discriminate Hh);
+     try discriminate Hh; try (inversion Hh; reflexivity)).
+Qed.
+
+Lemma shape_literal : forall l f, check_access_shape true l f = Ok tt ->
+  match f with EStr _ _ | ENum _ _ => True | _ => False end.
+Proof.
+  intros l f H. unfold check_access_shape in H.
+  destruct (rtype l); destruct (is_access l); destruct f; try discriminate H; exact I.
 Qed.
 
 Lemma rw_idem_kind : forall e, match e with EName _ _ => False | _ => True end -> rw e = e.
@@ -760,7 +780,9 @@ Proof.
     split; [|exact I]. destruct IHe0_1 as [IHl _]. clear IHe0_2.
     intros Hnr e1 a Hc Hcalls Hps. cbn [no_refs] in Hnr. apply andb_true_iff in Hnr. destruct Hnr as [Hnl _].
     cbn [Checker.check] in Hc. inv_bind Hc as l2 Hl2 Hc. inv_bind Hl2 as l1 Hl1 Hl2. inversion Hl2; subst l2. clear Hl2.
-    inv_bind Hc as u Hsh Hc. inversion Hc; subst e1. clear Hc.
+    inv_bind Hc as f2 Hf2 Hc. inv_bind Hc as u Hsh Hc. inversion Hc; subst e1. clear Hc. destruct u.
+    pose proof (check_literal_back _ _ Hf2) as Hlit. pose proof (shape_literal _ _ Hsh) as Hshl.
+    assert (Hfeq : e0_2 = f2) by (destruct f2; try contradiction; exact Hlit). subst f2. clear Hlit Hshl Hf2.
     cbn [rewrite_name check_calls params_static] in *.
     destruct (IHl Hnl l1 false Hl1 Hcalls Hps) as [Hil Hpl].
     cbn [calls_placed]. split; [|exact Hpl].
@@ -1051,13 +1073,16 @@ Proof.
     cbn [infer] in Hi. destruct (infer fo E m e0_1) as [tl|] eqn:Il; [|discriminate].
     cbn [calls_placed] in Hp. cbn [no_same_field] in Hs.
     destruct (IHl tl false Il Hp Hs) as [l1 [Hl1 [Hcl [Htl Hpsl]]]].
-    exists (EAccess p (rw l1) e0_2). cbn [Checker.check]. rewrite Hl1. cbn [bind].
+    assert (Hf : check ctx e0_2 = Ok e0_2).
+    { destruct tl; try discriminate Hi; try (destruct e0_1; try discriminate Hi);
+        destruct e0_2; try discriminate Hi; reflexivity. }
+    exists (EAccess p (rw l1) e0_2). cbn [Checker.check]. rewrite Hl1. cbn [bind]. rewrite Hf. cbn [bind].
     assert (Hsh : check_access_shape true (rw l1) e0_2 = Ok tt /\ t = SStr).
     { unfold check_access_shape. destruct tl; try discriminate Hi.
       - (* text: cascaded *)
         change SStr with (sty_of TStr) in Htl. apply sty_of_inj in Htl. rewrite Htl.
         destruct e0_1; try discriminate Hi.
-        destruct (check_head _ _ Hl1) as [x Hx]. rewrite Hx. cbn [is_access].
+        destruct (check_head _ _ Hl1) as [x [y Hx]]. rewrite Hx. cbn [is_access].
         destruct e0_2; try discriminate Hi; inversion Hi; split; reflexivity.
       - change SList with (sty_of TList) in Htl. apply sty_of_inj in Htl. rewrite Htl.
         destruct e0_2; try discriminate Hi; inversion Hi; split; reflexivity.
@@ -1109,7 +1134,8 @@ Proof.
     destruct (first_mistyped (rtype y) rest2); inversion Hc; subst ec.
     rewrite (check_list_nil_id _ _ _ H _ Hi2). reflexivity.
   - cbn [Checker.check] in Hc. inv_bind Hc as l2 Hl2 Hc. inv_bind Hl2 as l1 Hl1 Hl2. inversion Hl2; subst l2.
-    inv_bind Hc as u Hu Hc. inversion Hc; subst ec. cbn [c_names]. rewrite rw_nil, (IHe0_1 _ Hl1). reflexivity.
+    inv_bind Hc as f2 Hf2 Hc. inv_bind Hc as u Hu Hc. inversion Hc; subst ec. cbn [c_names].
+    rewrite rw_nil, (IHe0_1 _ Hl1), (IHe0_2 _ Hf2). reflexivity.
 Qed.
 
 Lemma sound_expr0 : forall nokey novalue e e1 a,
